@@ -5,7 +5,7 @@ from harness import travgen, trav
 from harness.common import coq_failing
 
 FLAVOURS = {
-    "C01": [None, "removable", "handover", "contention"],
+    "C01": [None, "removable", "handover", "contention", "retry"],
     "C02": [None, "retry", "removable", "contention"],
     "C03": ["retry", "contention", "retry", None],
     "C04": ["contention", "retry", "contention", None],
@@ -39,7 +39,8 @@ def monitors(prop, c):
                     out.append(("C05:removed-before-dependant-of-arrived-worker-started", m[1]))
                 else:
                     out.append(("C05:" + m[1].replace(" ", "-")[:40], m[1]))
-        marked = any(st.get("unset", "r")[0] == "f" for sts in spec["states"].values() for st in sts)
+        marked = any(st.get("unset", "r")[0] == "f" for sts in spec["states"].values() for st in sts) or \
+            any(np_.get(k, "r")[0] == "f" for k in ("unset_mode_vms", "unset_mode_images", "unset_mode"))
         doors = [e for evs in run.events for e in evs if e[0] == "door"]
         if not marked and np_.get("pool_filter", "reuse") in ("reuse", "block") and doors:
             out.append(("C05:state-altered-while-backing-out", f"door request {doors[0]} although nothing is marked for removal"))
@@ -324,7 +325,8 @@ def run_property(ctx, prop, replay=None):
             def expected_simple(c):
                 sp = c["spec"]
                 scope = sp["node_params"].get("pool_scope", "").split()
-                removable = any(st.get("unset", "r")[0] == "f" for sts in sp["states"].values() for st in sts)
+                removable = any(st.get("unset", "r")[0] == "f" for sts in sp["states"].values() for st in sts) or \
+                    any(sp["node_params"].get(k, "r")[0] == "f" for k in ("unset_mode_vms", "unset_mode_images", "unset_mode"))
                 permanent = any(v.get("permanent") for v in sp["vms"].values())
                 return "own" in scope and "shared" in scope and not removable and not permanent
             unexpected = [k for k in single if expected_simple(cases[k]) and k in outside]
